@@ -22,7 +22,11 @@ def run(ctx):
     ctx.run_mvh(["c07r", "-vectors", ctx.path("winvec.ndjson"), "-out", tr, "-seed", ctx.seed, "-tier", ctx.tier])
     # the WINSET header must lead every part
     recs = vf.read_ndjson(tr)
-    head, hist = recs[0], recs[1:]
+    head = recs[0]
+    hist = [r for r in recs[1:] if r["e"] == "WINHIST"]
+    paced = [r for r in recs[1:] if r["e"] == "STREAM"]      # the history with 10.6 s of silence inside
+    if not paced:
+        raise vf.Inconclusive("the paced history was not recorded")
     nparts = vf.NCPU
     size = (len(hist) + nparts - 1) // nparts
     import json
@@ -58,6 +62,9 @@ def run(ctx):
         raise vf.Inconclusive("Gen_SignedDl produced %d vectors:\n%s" % (nvd, vf.tail(out, 30)))
     trd = ctx.path("c07d.ndjson")
     ctx.run_mvh(["c06d", "-aux", "c07", "-vectors", ctx.path("sigdlvec.ndjson"), "-out", trd, "-seed", ctx.seed, "-tier", ctx.tier])
+    with open(trd, "a") as f:
+        for r in paced:
+            f.write(json.dumps(r) + "\n")
     drecs = _stream.validate_streams(ctx, trd, defs=defs, clause_filter=lambda c: c in {"window_gate", "valid_frame_delivered", "no_panic"})
     for r in drecs:
         ctx.distinct.add((r["tag"], tuple(x["k"] for x in r["results"])))
@@ -84,5 +91,5 @@ def run(ctx):
     ctx.cov["writer_frames_checked"] = frames
     ctx.cov["rule"] = ("all histories of the 12-symbol timestamp alphabet up to the exhaustive depth plus seeded random histories of depth "
                        "4..12, each fed to a fresh real keyed reader (frames signed by TLC); accept/refuse per frame judged by the "
-                       "window monitor with exact 48-bit arithmetic; on a reader with key AND dialect all pairs and seeded triples over (dialect message | unknown id) x 5 timestamps; writer timestamps of 500+ writes per link; distinct = distinct histories")
+                       "window monitor with exact 48-bit arithmetic; one history with 10.6 s of silence on the transport between the newest frame and the too-old ones (the rule does not depend on arrival times); on a reader with key AND dialect all pairs and seeded triples over (dialect message | unknown id) x 5 timestamps; writer timestamps of 500+ writes per link; distinct = distinct histories")
     ctx.assumptions += ["the 12 alphabet frames are signed by the TLA+ SHA-256 and re-verified once per trace part"]
